@@ -27,10 +27,12 @@ MANIFEST = dict(
          "clause while Break/Continue/Return pass through; a Throw leaving a try comes from its catch clause; after a statement raises, every "
          "variable it does not name has its previous value (a failed assignment changes nothing, a failed op-assignment leaves at most the named "
          "slot null); evaluation continues with the next statement in that store; if no builtin panics no program panics. Panic-freedom "
-         "theorems of other modelled cores are re-exported, and the known huge-count class is stated on a model of `x .* n` with its refutation. "
+         "theorems of the other modelled cores (C06 integer operators, C07 numeric tower, C10 index/slice, C12 assignment, C15 lexer, C16 decimal "
+         "parsing) are re-exported, and the known huge-count class is stated on a model of `x .* n` with its refutation. "
          "That applying a builtin yields a value or an error and never a panic/abort/hang is NOT a theorem: it is searched by the sweep (all "
-         "global functions of the live env x 0..2 arguments exhaustive over a 51-value pool, 8 huge values and infinite streams, + sampled triples "
-         "in the quick tier, all triples in the thorough tier) and by ~2 900 fault-injected programs / source texts per run.",
+         "global functions of the live env x 0..2 arguments exhaustive over a 55-value pool, 8 huge values and infinite streams, + sampled triples "
+         "in the quick tier, all triples in the thorough tier), by index/slice forms with machine-word boundary bounds on every stream constructor, "
+         "and by ~2 900 fault-injected programs / source texts per run.",
     note="Trusted: Coq kernel; hand-written model Lang/Contain.v (tied to /repo by the fault-injection correspondence, i.e. differential testing); "
          "extraction + OCaml runner; Rust harness (fork server, catch_unwind, panic hook, CPU watchdog, allocation cap, RLIMIT_AS); Python driver. "
          "Panic-freedom of the ~300 builtin bodies is a sweep result over the pool, not a proof (it is the hypothesis of C14_program_no_panic). "
@@ -67,7 +69,9 @@ POOL_B = [
     ("0.0", "float"), ("1.5", "float"), ("(0.0-2.5)", "float"), ("(0.0/0.0)", "nan"), ("(1.0/0.0)", "inf"), ("(0.0-1.0/0.0)", "inf"),
     ("(1/2)", "rational"), ("(0-7/3)", "rational"), ("((1/2)-(1/2))", "rational"),       # the last one: a rational zero
     ("(1+2i)", "complex"), ("(0.0*1i)", "complex"),
-    ('""', "string"), ('"a"', "string"), ('"ab"', "string"), ('"é\U0001d11e x"', "string"), ('"12"', "string"),
+    ('""', "string"), ('"a"', "string"), ('"ab"', "string"),
+    ('"\\u{0}"', "string"), ('"\\u{d7ff}"', "string"), ('"\\u{e000}"', "string"), ('"\\u{10ffff}"', "string"),   # boundary scalar values
+    ('"é\U0001d11e x"', "string"), ('"12"', "string"),
     ("B[]", "bytes"), ("B[255,254,97]", "bytes"),
     ("[]", "list"), ("[5]", "list"), ("[1,2,3]", "list"), ('[[1,[2,3]],[],"x"]', "list"), ('[3,"a",null,1.5]', "list"),
     ("V()", "vector"), ("V(1,2,3)", "vector"),
@@ -243,13 +247,16 @@ class Sweep:
                 if st == "batch":
                     with lk:
                         self.absorb(c, r)
-                        if "hang_at" in r or "alloc_at" in r:
+                        if "hang_at" in r or "alloc_at" in r or "abort_at" in r:
                             if "hang_at" in r:
                                 k = r["hang_at"]
                                 self.record(c, k, "hang", f"no answer within {c['limit_ms']} ms")
+                            elif "abort_at" in r:
+                                k = r["abort_at"]
+                                self.record(c, k, "abort", "the process called abort() during this call")
                             else:
                                 k = r["alloc_at"]
-                                self.record(c, k, "allocbomb", f"a single allocation of {r.get('alloc_size')} bytes was requested (harness cap 1 GiB) or an allocation failed")
+                                self.record(c, k, "allocbomb", f"an allocation of {r.get('alloc_size')} bytes was refused (harness cap 1 GiB per request, 3 GiB address space) and the implementation aborted")
                             d = self.rest(c, k + 1)
                             if d:
                                 left = c.get("budget")
@@ -813,6 +820,9 @@ RAW_FAULTS = [
     ("x0 = try (throw 1) catch 2 -> 5", {0}), ("try (throw 1) catch e -> throw [e, 2]", set()), ("x0 = try (throw [1,2]) catch [a] -> a", {0}), ("x0 = try (1 // 0) catch e -> e // 0", {0}),
     ("x2 .= reverse; x2 .= nosuch", {2}), ("x0 |>= nosuch", {0}), ("x2 sort= 5", {2}), ("x2 map= null", {2}), ("x2 !!= 9", {2}), ("x4 append= 1", {4}), ("x2 ++= 5", {2}), ("x0 max= null", {0}),
     ("x2 |.= 9", {2}), ("x2 |..= [9, 1]", {2}), ("x3 |..= [0, 1, 2]", {3}), ("x2 zip= 5", {2}), ("x2 join= 5", {2}), ("x2 window= 0", {2}), ("x0 ^= (0-1)", {0}), ("x0 <<= (0-1)", {0}),
+    ("x0 = \"\\u{d7ff}\" to \"\\u{e000}\"", {0}), ("x0 = \"\\u{d7ff}\" til \"\\u{e000}\"", {0}), ("x0 = \"\\u{0}\" to \"\\u{10ffff}\" then len", {0}),
+    ("x0 = repeat(7)[(0-9223372036854775807-1):]", {0}), ("x0 = repeat(7)[:(0-9223372036854775807-1)]", {0}), ("x0 = repeat(7)[(0-9223372036854775807-1):(0-1)]", {0}),
+    ("x0 = cycle([1,2])[(0-9223372036854775807-1):]", {0}), ("x0 = (1 to 3)[(0-9223372036854775807-1):9223372036854775807]", {0}),
     ("x0 %= 0", {0}), ("x0 %%= 0", {0}), ("x0 /= 0", {0}), ("x0 gcd= null", {0}), ("x0 til= null", {0}), ("x0 by= 0", {0}), ("x0 = 1 to null", {0}),
 ]
 
@@ -1003,6 +1013,79 @@ def report_inject(ctx, bad):
         ctx.violation(kind, rec, found=(kind == "property"))
 
 
+# ----------------------------------------------------------------------------- index / slice bounds on every stream constructor
+SB_SETUP = SETUP + [
+    "c14_index := \\s, i -> s[i]", "c14_lo := \\s, a -> s[a:]", "c14_hi := \\s, b -> s[:b]", "c14_slice := \\s, a, b -> s[a:b]",
+    "c14_sec_index := \\s, i -> (_[i])(s)", "c14_sec_slice := \\s, a, b -> (_[a:b])(s)",
+]
+SB_INF_FAST = ["repeat(7)", "cycle([1,2])"]                      # have their own index / slice code
+SB_INF_SLOW = ["(cycle([1,2,3]) drop 1)", "iota(0)", "iterate(0, \\x -> x+1)", "(iota(0) lazy_map \\x -> x)"]
+SB_FINITE = ["(1 to 3)", "(0 til 0)", "(5 to 1 by (0-2))", "stream([1,2,3])", "((1 to 3) lazy_map (+1))", "((1 to 5) lazy_filter odd)",
+             "permutations([1,2])", "combinations([1,2,3], 2)", "subsequences([1,2])", "([1,2] ^^ 2)", '("a" to "c")', '("\\u{d7ff}" to "\\u{e000}")',
+             "[1,2,3]", '"abc"', "V(1,2,3)", "B[1,2,3]", "(1 to 3 zip [4,5,6])", "enumerate([7,8])"]
+SB_BOUNDS = [0, 1, -1, 2, -2, 3, -3, 4, 2 ** 31, -2 ** 31, 2 ** 63 - 2, 2 ** 63 - 1, -2 ** 63 + 1, -2 ** 63, 2 ** 63, -2 ** 63 - 1, 2 ** 64]
+SB_BOUNDS_PAIR = [0, 1, -1, 2 ** 31, -2 ** 31, 2 ** 63 - 1, -2 ** 63, 2 ** 63, -2 ** 63 - 1]
+SB_BOUNDS_PAIR_SLOW = [0, 1, -1, 2 ** 63 - 1, -2 ** 63]
+SB_FNS2 = ["c14_index", "c14_lo", "c14_hi", "c14_sec_index", "!!", "!?", "index", "index?", "take", "drop"]
+SB_FNS3 = ["c14_slice", "c14_sec_slice"]
+
+
+def run_stream_bounds(ctx):
+    """s[i], s[a:], s[:b], s[a:b] (expression and section forms) and the index builtins, for every stream constructor and
+    the machine-word boundary bounds"""
+    streams = SB_INF_FAST + SB_INF_SLOW + SB_FINITE
+    ninf = len(SB_INF_FAST) + len(SB_INF_SLOW)
+    nums = sorted(set(SB_BOUNDS))
+    pool = streams + [str(n) if n >= 0 else f"(0-{-n})" for n in nums]
+    at = {n: len(streams) + k for k, n in enumerate(nums)}
+    sw = Sweep(ctx)
+    cases = []
+
+    def case(fn, tuples):
+        c = sw.case(fn, tuples=tuples, limit_ms=300, pool=pool)
+        c["setup"] = SB_SETUP
+        return c
+    for fn in SB_FNS2:
+        cases.append(case(fn, [[si, at[b]] for si in range(len(streams)) for b in SB_BOUNDS]))
+    for fn in SB_FNS3:
+        for si, src in enumerate(streams):
+            bs = SB_BOUNDS_PAIR_SLOW if src in SB_INF_SLOW else SB_BOUNDS_PAIR
+            cases.append(case(fn, [[si, at[a], at[b]] for a in bs for b in bs]))
+    sw.run(cases)
+    viol, tol = [], []
+    for f in sw.fail:
+        inf = f["t"][0] < ninf
+        f["call"] = f"{f['fn']}({', '.join(pool[i] for i in f['t'])})"
+        if f["status"] != "panic" and inf:
+            tol.append(f)       # an infinite stream asked for its end / for 2^63 elements: non-terminating input
+        else:
+            viol.append(f)
+    suspects = [f for f in viol if f["status"] == "hang"]
+    if suspects:
+        sw2 = Sweep(ctx)
+        cs = []
+        for f in suspects[:30]:
+            c = sw2.case(f["fn"], tuples=[f["t"]], limit_ms=20000, pool=pool)
+            c["setup"] = SB_SETUP
+            cs.append(c)
+        sw2.run(cs, workers=4)
+        still = {(g["fn"], tuple(g["t"])) for g in sw2.fail}
+        viol = [f for f in viol if f["status"] != "hang" or (f["fn"], tuple(f["t"])) in still]
+    stats = {"calls": sw.calls, "outcomes": dict(sorted(sw.counts.items())), "streams": streams, "bounds": [str(b) for b in SB_BOUNDS],
+             "functions": SB_FNS2 + SB_FNS3, "tolerated_nonterminating_input": len(tol), "violations": len(viol)}
+    bad = []
+    seen = set()
+    for f in viol:
+        key = (f["status"], f["loc"] or f["msg"][:50])
+        if key in seen:
+            continue
+        seen.add(key)
+        bad.append(("property", dict(shape="stream-bounds", what="indexing / slicing a stream at a boundary bound did not end in a value or a catchable error: " + f["status"],
+                                     call=f["call"], status=f["status"], msg=f["msg"], panic_location=f["loc"],
+                                     same_site_calls=[g["call"] for g in viol if (g["status"], g["loc"] or g["msg"][:50]) == key][:10])))
+    return stats, bad
+
+
 def sweep_coverage(ctx, S):
     sw = S["sw"]
     per_fn_ok = sum(1 for fn in S["fns"] if sw.per_fn.get(fn, {}).get("ok", 0) > 0)
@@ -1036,12 +1119,15 @@ def run(ctx):
     S = run_sweep(ctx)
     amodel, abad = run_alloc_model(ctx, runner)
     report_inject(ctx, abad)
+    sbstats, sbbad = run_stream_bounds(ctx)
+    report_inject(ctx, sbbad)
+    ctx.coverage["stream_bounds"] = sbstats
     ctx.coverage["alloc_model"] = amodel
     report_sweep(ctx, S)
     sweep_coverage(ctx, S)
     ctx.coverage["inject"] = stats
     ctx.coverage["inject_disagreements"] = len(bad)
-    ctx.coverage["evaluations"] = S["sw"].calls + stats["programs"] + stats["raw_fault_programs"]
+    ctx.coverage["evaluations"] = S["sw"].calls + stats["programs"] + stats["raw_fault_programs"] + sbstats["calls"]
     ctx.coverage["distinct_nontrivial"] = ctx.coverage["sweep_not_argument_count_errors"] + stats["raised_to_top"] + stats["caught_and_continued"]
     ctx.coverage["rule"] = ("one evaluation = one application of a global function to an argument tuple (sweep) or one fault-injected program; "
                             "non-trivial = the call got past the argument-count check / the program raised to the top or had a fault caught and continued")
